@@ -207,6 +207,7 @@ def case_history(ctx, rng):
     pe = PE
     pool, tab, ens = start_pool(rng, ctx.tier)
     cpool = []
+    born = [(o, any_digest(o)) for o in pool]
     script = []
     kinds = set()
     mixed = 0
@@ -366,9 +367,15 @@ def case_history(ctx, rng):
                 rb = bounded(r)
                 if rb is not None and len(pool) < 14:
                     pool.append(rb)
+                    born.append((rb, any_digest(rb)))
             elif is_cobs(r) and len(cpool) < 6:
                 if is_obs(r.real) and is_obs(r.imag) and np.isfinite(r.real.value) and np.isfinite(r.imag.value):
                     cpool.append(r)
+    # objects handed out earlier must not be changed by anything that happened later (shared buffers, caches)
+    for k, (o, d) in enumerate(born):
+        ctx.ev()
+        if any_digest(o) != d:
+            ctx.violation('returned-object-changed-by-later-operations', {'pool_index': k, 'names': list(o.names), 'script': script[-8:]})
     ctx.count('histories')
     if len(kinds) >= 3 and mixed >= 1:
         ctx.nontrivial.add(digest('history', script, any_digest(pool[0])))
